@@ -7,7 +7,7 @@ from ..cfg import edge_facts
 from ..loader import AnchorError, is_self_attr, parent, short, src, walk_no_nested
 from ..locks import LockAnalysis, held_at, regions
 from ..resolve import Resolver
-from ..rules import attr_writes, calls_named, cfg_of, dict_key_field, guard_facts, mentions_attr, where, in_cycle
+from ..rules import attr_writes, calls_named, cfg_of, dict_key_field, guard_facts, mentions_attr, where, in_cycle, datetime_awareness, d_is_now_factory
 
 FILES = ["operon_ai/organelles/lysosome.py", "operon_ai/healing/autophagy_daemon.py"]
 Q = "_queue"
@@ -129,8 +129,55 @@ def run(p, led, tier):
                      f"the queue is read in one region of the lock and rewritten in another ({len(touching)} regions): between them a concurrent digest / ingest changes the queue, so items are processed twice or dropped unprocessed",
                      witness="thread A snapshots the batch, thread B digests the same items, A then cuts the queue: items digested twice, toxic callback twice")
 
+    # ---------------- R7: the timestamps autophagy subtracts are of one kind
+    _timestamps(p, led, lys, res)
+
     # ---------------- R3–R6: sequential conservation tables (abstract interpretation; adversarial digesters / callback)
     _semantic(p, led, lys, res, Q)
+
+
+def _timestamps(p, led, lys, res):
+    """`now - item.<stamp>` raises TypeError when one side is offset-aware and the other offset-naive: every value that can
+    reach the stamp of a queued item (the record's default, every constructor call of the record in the package that sets
+    it) must be of the kind the expiry test's `now` is"""
+    led.rule("C13-R7", "every timestamp that reaches a queued item is of the same kind (offset-naive / offset-aware) as the clock autophagy compares it with", 0)
+    LY = "operon_ai/organelles/lysosome.py"
+    W = p.cls("Waste", LY)
+    sites = []          # (method, subtraction node, stamp field, kind of `now`)
+    for m in lys.methods.values():
+        for n in ast.walk(m.node):
+            if isinstance(n, ast.BinOp) and isinstance(n.op, ast.Sub):
+                for stamp_side, now_side in ((n.right, n.left), (n.left, n.right)):
+                    if isinstance(stamp_side, ast.Attribute) and not is_self_attr(stamp_side) and any(stamp_side.attr == f for f in W.field_names()) :
+                        k = datetime_awareness(now_side, m, res)
+                        if k:
+                            sites.append((m, n, stamp_side.attr, k))
+    if not sites:
+        led.ok("C13-R7", "Lysosome ▸ no timestamp arithmetic on queued items", LY, "nothing to compare", nontrivial=False)
+        return
+    for m, n, stamp, kind in sites:
+        feeds = []
+        dflt = W.field_default(stamp)
+        if dflt is not None:
+            kd = datetime_awareness(dflt, m, res)
+            if kd is None and isinstance(dflt, ast.Call):
+                fac = next((k.value for k in dflt.keywords if k.arg == "default_factory"), None)
+                kd = "naive" if fac is not None and d_is_now_factory(fac) else (datetime_awareness(fac.body, m, res) if isinstance(fac, ast.Lambda) else None)
+            feeds.append((f"{W.name}.{stamp} default", kd, m, dflt))
+        for fi in p.all_funcs:
+            for c in ast.walk(fi.node):
+                if isinstance(c, ast.Call) and isinstance(c.func, ast.Name) and c.func.id == W.name:
+                    for k in c.keywords:
+                        if k.arg == stamp:
+                            feeds.append((f"{fi.qual} ▸ {short(c, 40)}", datetime_awareness(k.value, fi, res), fi, c))
+        bad = [(lbl, kd, fi, c) for lbl, kd, fi, c in feeds if kd is not None and kd != kind]
+        key = f"{m.qual} ▸ `{short(n, 50)}`"
+        if bad:
+            lbl, kd, fi, c = bad[0]
+            led.fail("C13-R7", key, where(fi, c), f"`{stamp}` can hold an offset-{kd} timestamp ({lbl}) while the expiry test subtracts it from an offset-{kind} clock: the subtraction raises TypeError and the call does not return",
+                     witness="a daemon-flushed item stamped with datetime.now(timezone.utc) sits in the queue: Lysosome.autophagy() raises TypeError on every call")
+        else:
+            led.ok("C13-R7", key, where(m, n), f"{len(feeds)} source(s) of `{stamp}` (record default and constructor calls package-wide): all offset-{kind} or not datetime constructions")
 
 
 # ----------------------------------------------------------------------
